@@ -32,7 +32,7 @@ def tsStop (tsNow : Option Nat) (st : Stmt) : Bool :=
   match tsNow with | some t => decide (t < st.ts) | none => false
 
 theorem readQueue_zero (inj : BSt → Nat → BSt) (tsNow : Option Nat) (i total : Nat) (s : BSt) :
-    readQueue inj tsNow i 0 total s = s := rfl
+    readQueue inj tsNow i 0 total s = (if total ≠ 0 then commitSt s i else s) := rfl
 
 theorem readQueue_succ (inj : BSt → Nat → BSt) (tsNow : Option Nat) (i fuel total : Nat) (s : BSt) :
     readQueue inj tsNow i (fuel + 1) total s =
@@ -644,7 +644,11 @@ include hc
 
 theorem readQueue_ok {inj : BSt → Nat → BSt} (hi : InjOK P inj) (tsNow : Option Nat) (i : Nat) :
     ∀ (fuel total : Nat) (s : BSt), P s → P (readQueue inj tsNow i fuel total s)
-  | 0, _, _, hs => hs
+  | 0, total, s, hs => by
+    rw [readQueue_zero]
+    split
+    · exact hc.commit _ _ hs
+    · exact hs
   | fuel + 1, total, s, hs => by
     rw [readQueue_succ]
     have hfin : P (if total ≠ 0 then commitSt (readPrepSt s i) i else readPrepSt s i) := by
